@@ -581,6 +581,11 @@ func runC14(c *Ctx) {
 			}
 		})
 	}
+	ruleNoWriteUnderReadLock(c, "R14.g")
+	ruleAuthenticatorsReadOnly(c, "R14.h")
+	ruleNoReentrantLock(c, m, "R14.i")
+	ruleReplyBufferLocal(c, "R14.j")
+	ruleNoAliasedSnapshots(c, "R14.k")
 }
 
 // ruleNoLockAcrossBlocking: no mutex is held while the goroutine blocks on the transport.
@@ -613,6 +618,7 @@ func runC15(c *Ctx) {
 	ruleOwnListenerOnly(c, "R15.b")
 	ruleStopSweep(c, "R15.c")
 	ruleJoin(c, "R15.d")
+	ruleAcceptLoopEndsWithListener(c, "R15.f")
 	ruleRegistryBracket(c, "R15.e")
 	c.assume("ports are re-bindable once their listener is closed (kernel); the application does not call lifecycle methods concurrently with each other")
 }
@@ -660,4 +666,371 @@ func ruleJoin(c *Ctx, rid string) {
 			c.bad(rid, key, c.P.instrPos(gs.Go), fmt.Sprintf("the goroutine is not joined by Stop (Add-before-go=%v, deferred-Done=%v, Stop-waits=%v): Stop can return while it is still running", addBefore, doneDeferred, stopWaits))
 		}
 	}
+}
+
+// ruleNoReentrantLock: sync.Mutex and sync.RWMutex are not re-entrant. A function called — at
+// any depth, through closures and function values as the call graph resolves them — while lock
+// L is held must not acquire L again: a second Lock blocks forever, and a second RLock blocks
+// forever as soon as a writer waits in between, after which every later reader (each new
+// connection reads the configuration) blocks too.
+func ruleNoReentrantLock(c *Ctx, m *syncModel, rid string) {
+	c.rule(rid, "no call made while a mutex is held (must-lockset at the call site) reaches, through the call graph, an acquisition (Lock or RLock) of that same mutex")
+	// direct acquisitions per function
+	direct := map[*ssa.Function]map[int]string{}
+	for _, fn := range m.funcs {
+		allInstrs(fn, func(ins ssa.Instruction) {
+			call, ok := ins.(*ssa.Call)
+			if !ok {
+				return
+			}
+			name, kind := lockEvent(call.Common())
+			if kind != "lock" && kind != "rlock" {
+				return
+			}
+			if id := m.locks.id(name); id >= 0 {
+				if direct[fn] == nil {
+					direct[fn] = map[int]string{}
+				}
+				direct[fn][id] = c.P.instrPos(call)
+			}
+		})
+	}
+	// transitive closure over the call graph (framework functions only)
+	memo := map[*ssa.Function]map[int]string{}
+	var may func(fn *ssa.Function, stack map[*ssa.Function]bool) map[int]string
+	may = func(fn *ssa.Function, stack map[*ssa.Function]bool) map[int]string {
+		if r, ok := memo[fn]; ok {
+			return r
+		}
+		if stack[fn] || fn.Blocks == nil {
+			return nil
+		}
+		stack[fn] = true
+		out := map[int]string{}
+		for id, pos := range direct[fn] {
+			out[id] = fnName(fn) + " at " + pos
+		}
+		allInstrs(fn, func(ins ssa.Instruction) {
+			ci, ok := ins.(ssa.CallInstruction)
+			if !ok {
+				return
+			}
+			if _, isGo := ins.(*ssa.Go); isGo {
+				return // another goroutine: it waits, it does not deadlock this one by re-entry
+			}
+			for _, cal := range c.P.calleesAt(ci) {
+				if !inFramework(cal) {
+					continue
+				}
+				for id, via := range may(cal, stack) {
+					if _, ok := out[id]; !ok {
+						out[id] = via
+					}
+				}
+			}
+		})
+		delete(stack, fn)
+		memo[fn] = out
+		return out
+	}
+	n, bad := 0, 0
+	for _, fn := range m.funcs {
+		allInstrs(fn, func(ins ssa.Instruction) {
+			ci, ok := ins.(ssa.CallInstruction)
+			if !ok {
+				return
+			}
+			if _, isGo := ins.(*ssa.Go); isGo {
+				return
+			}
+			held := m.lockAt[ins]
+			if held == 0 {
+				return
+			}
+			if _, kind := lockEvent(ci.Common()); kind != "" {
+				return // the lock operations themselves are checked by the pairing automaton
+			}
+			n++
+			for _, cal := range c.P.calleesAt(ci) {
+				if !inFramework(cal) {
+					continue
+				}
+				for id, via := range may(cal, map[*ssa.Function]bool{}) {
+					if held.mode(id) != 0 {
+						bad++
+						c.bad(rid, fmt.Sprintf("%s/reentrant:%s#%d", c.P.key(fn), m.locks.names[id], bad), c.P.instrPos(ins), fmt.Sprintf("%s is held here and acquired again by %s (reached through %s): the second acquisition can block forever and then blocks every other user of the lock", m.locks.names[id], via, fnName(cal)))
+					}
+				}
+			}
+		})
+	}
+	c.count("calls-under-lock", n)
+	if bad == 0 {
+		c.ok(rid, "no-reentrant-acquisition", "", fmt.Sprintf("%d calls are made with a lock held; none reaches an acquisition of a lock it holds", n))
+	}
+}
+
+// ruleNoWriteUnderReadLock: a map written (updated or deleted from) while only the read lock of
+// the RWMutex guarding its struct is held. Readers do not exclude each other, so two such
+// writers — or the writer and any reader — run concurrently; for a Go map that is a runtime
+// throw ("concurrent map writes"), which no recover can stop: the whole server goes down.
+func ruleNoWriteUnderReadLock(c *Ctx, rid string) {
+	c.rule(rid, "in every production function of the repository (framework and example store): a map update/delete, or a store to a field, of a struct that carries a sync.RWMutex is never executed on a path where that mutex is held in read mode only")
+	n, bad := 0, 0
+	for _, fn := range c.P.RepoFuncs(modPath) {
+		if !inProd(fn) || fn.Blocks == nil {
+			continue
+		}
+		var names []string
+		idOf := func(name string) int {
+			for i, s := range names {
+				if s == name {
+					return i
+				}
+			}
+			if len(names) >= 4 {
+				return -1
+			}
+			names = append(names, name)
+			return len(names) - 1
+		}
+		hasLock := false
+		allInstrs(fn, func(ins ssa.Instruction) {
+			if cc := callCommon(ins); cc != nil {
+				if _, kind := lockEvent(cc); kind == "rlock" {
+					hasLock = true
+				}
+			}
+		})
+		if !hasLock {
+			continue
+		}
+		type st struct{ M [4]int8 }
+		ownerOfLock := func(name string) string {
+			if i := strings.LastIndex(name, "."); i > 0 {
+				return name[:i]
+			}
+			return name
+		}
+		a := &Auto[st]{Fn: fn, Init: st{},
+			Step: func(s st, ins ssa.Instruction, fail func(string)) []st {
+				if cc := callCommon(ins); cc != nil {
+					if _, isDefer := ins.(*ssa.Defer); !isDefer {
+						if name, kind := lockEvent(cc); kind != "" {
+							if id := idOf(name); id >= 0 {
+								switch kind {
+								case "lock":
+									s.M[id] = 2
+								case "rlock":
+									if s.M[id] == 0 {
+										s.M[id] = 1
+									}
+								case "unlock", "runlock":
+									s.M[id] = 0
+								}
+							}
+							return []st{s}
+						}
+					}
+				}
+				var target ssa.Value
+				what := ""
+				switch x := ins.(type) {
+				case *ssa.MapUpdate:
+					target, what = x.Map, "map update"
+				case *ssa.Call:
+					if b, ok := x.Common().Value.(*ssa.Builtin); ok && b.Name() == "delete" && len(x.Common().Args) > 0 {
+						target, what = x.Common().Args[0], "map delete"
+					}
+				case *ssa.Store:
+					if _, _, _, ok := fieldOf(x.Addr); ok {
+						target, what = x.Addr, "field store"
+					}
+				}
+				if target == nil {
+					return []st{s}
+				}
+				owner, f, _, ok := fieldOf(target)
+				if !ok {
+					return []st{s}
+				}
+				for id, name := range names {
+					if s.M[id] == 1 && ownerOfLock(name) == owner {
+						n++
+						fail(fmt.Sprintf("%s of %s.%s while %s is held for reading only: concurrent writers (and readers) are not excluded", what, owner, f, name))
+					}
+				}
+				return []st{s}
+			}}
+		res := a.Run()
+		for i, e := range res.Errs {
+			bad++
+			c.bad(rid, fmt.Sprintf("%s/write-under-rlock#%d", fnName(fn), i), c.P.instrPos(e.Ins), e.Msg, e.witness(c.P)...)
+		}
+	}
+	if bad == 0 {
+		c.ok(rid, "no-write-under-read-lock", "", "no shared map or field is written with only a read lock held")
+	}
+}
+
+// ruleNoAliasedSnapshots: a method of a lock-guarded framework object must not hand out its
+// internal slice or map itself (or a reslice of it): the caller reads it after the lock is
+// released, while AddConn/RemoveConn/SetConfig keep writing the same backing storage.
+func ruleNoAliasedSnapshots(c *Ctx, rid string) {
+	c.rule(rid, "no method of a mutex-guarded framework struct returns a slice or map that is (a reslice of) one of the struct's fields: snapshots handed out are built in the call")
+	n, bad := 0, 0
+	// fields whose backing storage is written in place somewhere (append onto the field, element
+	// store, copy into it, map update/delete): a field that is only ever replaced as a whole can
+	// be handed out safely
+	inPlace := map[string]bool{}
+	fieldKey := func(v ssa.Value) (string, bool) {
+		v = strip(v)
+		for d := 0; d < 4; d++ {
+			if sl, ok := v.(*ssa.Slice); ok {
+				v = strip(sl.X)
+				continue
+			}
+			break
+		}
+		if _, isLoad := v.(*ssa.UnOp); !isLoad {
+			return "", false
+		}
+		owner, f, _, ok := fieldOf(v)
+		if !ok || !sharedStructs[owner] {
+			return "", false
+		}
+		return owner + "." + f, true
+	}
+	for _, fn := range c.P.RepoFuncs(pkgRedis) {
+		allInstrs(fn, func(ins ssa.Instruction) {
+			switch x := ins.(type) {
+			case *ssa.Call:
+				if b, ok := x.Common().Value.(*ssa.Builtin); ok && len(x.Common().Args) > 0 {
+					switch b.Name() {
+					case "append", "copy", "delete":
+						if k, ok := fieldKey(x.Common().Args[0]); ok {
+							inPlace[k] = true
+						}
+					}
+				}
+			case *ssa.MapUpdate:
+				if k, ok := fieldKey(x.Map); ok {
+					inPlace[k] = true
+				}
+			case *ssa.Store:
+				if ia, ok := x.Addr.(*ssa.IndexAddr); ok {
+					if k, ok := fieldKey(ia.X); ok {
+						inPlace[k] = true
+					}
+				}
+			}
+		})
+	}
+	for _, fn := range c.P.RepoFuncs(pkgRedis) {
+		if !inFramework(fn) || fn.Signature.Recv() == nil || fn.Blocks == nil {
+			continue
+		}
+		recvT := typeName(deref(fn.Signature.Recv().Type()))
+		if !sharedStructs[recvT] {
+			continue
+		}
+		for _, r := range returnsOf(fn) {
+			for i, rv := range r.Results {
+				switch rv.Type().Underlying().(type) {
+				case *types.Slice, *types.Map:
+				default:
+					continue
+				}
+				n++
+				v := strip(retOperand(r, i))
+				for d := 0; d < 4; d++ {
+					if sl, ok := v.(*ssa.Slice); ok {
+						v = strip(sl.X)
+						continue
+					}
+					break
+				}
+				if owner, f, _, ok := fieldOf(v); ok && sharedStructs[owner] && inPlace[owner+"."+f] {
+					if _, isLoad := v.(*ssa.UnOp); isLoad {
+						bad++
+						c.bad(rid, fmt.Sprintf("%s/returns-field:%s", fnName(fn), f), c.P.instrPos(r), fmt.Sprintf("%s.%s itself (or a reslice of it) is returned: the caller reads the registry's own storage after the lock is released, concurrently with its writers", owner, f))
+					}
+				}
+			}
+		}
+	}
+	c.count("shared-struct-slice-results", n)
+	if bad == 0 {
+		c.ok(rid, "no-aliased-snapshots", "", fmt.Sprintf("%d slice/map results of guarded structs examined; none aliases a field", n))
+	}
+}
+
+// ruleAcceptLoopEndsWithListener: Stop ends an accept loop by closing the listener that loop
+// was given; Accept then fails. The loop must leave on that failure whatever else is going on:
+// a retry governed by a server-wide flag can miss the Stop of its own generation (the next
+// Start re-arms the flag) and spin on a closed listener for ever. Retrying is accepted only on
+// a path that has ruled out net.ErrClosed for this very error.
+func ruleAcceptLoopEndsWithListener(c *Ctx, rid string) {
+	c.rule(rid, "in every accept loop, no path from the edge on which Accept returned an error leads back to the loop header, unless it crosses the false edge of errors.Is(thatError, net.ErrClosed)")
+	n := 0
+	for _, al := range c.P.acceptLoops() {
+		if al.Loop == nil || al.Accept.Referrers() == nil {
+			continue
+		}
+		n++
+		var errEx ssa.Value
+		for _, r := range *al.Accept.Referrers() {
+			if ex, ok := r.(*ssa.Extract); ok && ex.Index == 1 {
+				errEx = ex
+			}
+		}
+		key := fnName(al.Fn) + "/accept-error-ends-loop"
+		bad := ""
+		notClosedEdge := func(b *ssa.BasicBlock, idx int) bool {
+			for _, at := range edgeOnly(b, idx) {
+				if at.Kind == "call" && !at.Pos && calleeName(at.Call.Common()) == "errors.Is" && len(at.Call.Common().Args) == 2 {
+					if strip(at.Call.Common().Args[0]) == errEx && isLoadOfGlobal(at.Call.Common().Args[1], "net", "ErrClosed") {
+						return true
+					}
+				}
+			}
+			return false
+		}
+		for _, b := range al.Loop.sortedBlocks() {
+			for idx, s := range b.Succs {
+				isErrEdge := false
+				for _, at := range edgeOnly(b, idx) {
+					if at.Kind == "nil" && !at.Pos && at.X == errEx {
+						isErrEdge = true
+					}
+				}
+				if !isErrEdge || !al.Loop.Blocks[s] {
+					continue
+				}
+				seen := map[*ssa.BasicBlock]bool{}
+				st := []*ssa.BasicBlock{s}
+				for len(st) > 0 && bad == "" {
+					x := st[len(st)-1]
+					st = st[:len(st)-1]
+					if seen[x] || !al.Loop.Blocks[x] {
+						continue
+					}
+					seen[x] = true
+					if x == al.Loop.Header {
+						bad = fmt.Sprintf("after Accept failed (edge at %s) the loop can call Accept again without having ruled out net.ErrClosed: an accept loop whose listener was closed by Stop may never end", c.P.instrPos(b.Instrs[len(b.Instrs)-1]))
+						break
+					}
+					for k, nx := range x.Succs {
+						if notClosedEdge(x, k) {
+							continue
+						}
+						st = append(st, nx)
+					}
+				}
+			}
+		}
+		c.check(bad == "", rid, key, c.P.instrPos(al.Accept), "the first Accept error (or at least the closed-listener error) ends the loop", bad)
+	}
+	c.count("accept-loops-checked", n)
+	c.floor("accept-loops-checked", 1)
 }
